@@ -185,7 +185,7 @@ class Ctx:
 
     def violation(self, what: str, case: Any, observed: Any, expected: Any, replay: dict | None = None) -> None:
         """the property itself is false on the implementation for this input"""
-        if len(self.violations) < 200:
+        if len(self.violations) < 5000:
             self.violations.append({"what": what, "input": case, "observed": observed, "expected": expected,
                                     "replay": replay or {}})
         else:
